@@ -66,6 +66,7 @@ def space_subspace_slicing_equality(S):
     X, Y, Z = S.new(RN, "x", dx), S.new(RN, "y", dy), S.new(RN, "z", dz)
     sp = mul(S, mul(S, X, Y), Z)
     I = S.I
+    S.ctx.ghost["replay"] = ("c12_space_slice", {})
     S.ensure("contains-name", I.truth(I.compare(ast.In(), "y", sp)) and not I.truth(I.compare(ast.In(), "w", sp)))
     S.ensure("contains-subspace-any-order", I.truth(I.compare(ast.In(), mul(S, Z, X), sp)))
     S.ensure("does-not-contain-foreign-variable", not I.truth(I.compare(ast.In(), mul(S, X, S.new(RN, "w", 1)), sp)))
@@ -176,6 +177,7 @@ def points_selection(S):
     I = S.I
     off = offsets(nd)
     names = NAMESEL[ck]
+    S.ctx.ghost["replay"] = ("c12_select", {"layout": lay, "rowkind": rk, "colkind": ck, "N": N})
     if ck == "name-slice":
         order = [n for n, _ in nd]
         want = order[order.index("x"):]
